@@ -300,7 +300,11 @@ def check_sweep(P, ctx):
             # loop: iv from 0, while iv < freenum, iv++
             conds = [n for n in g.live() if n['kind'] == 'cond' and N.canon(n['expr']) == ir.canon(('bin', '<', iv, ('arrow', ('param', 0), 'freenum')))]
             steps = [n for n in g.live() if n.get('loop_inc') and N.canon(n['expr']) in (('un', 'post++', iv), ('un', 'pre++', iv))]
-            inits = [n for n in g.live() if n.get('decl') and n['decl']['name'] == iv[1] and util.const_int(n['decl']['init']) == 0]
+            raw_iv = [x for x in ir.walk(a[2][0]) if x[0] == 'local' and x[1] == iv[1]]
+            iv_id = raw_iv[0][2] if raw_iv else None
+            inits = [n for n in g.live() if n.get('decl') and n['decl']['id'] == iv_id and util.const_int(n['decl']['init']) == 0]
+            steps = [n for n in steps if any(x[0] == 'local' and x[2] == iv_id for x in ir.walk(n['expr']))]
+            conds = [n for n in conds if any(x[0] == 'local' and x[2] == iv_id for x in ir.walk(n['expr']))]
             nn = [n for n in g.live() if n['kind'] == 'cond' and N.canon(n['expr']) == tgt]
             ok = len(conds) == 1 and len(steps) >= 1 and len(inits) >= 1 and len(nn) == 1 and \
                 g.must_pass(fnode['id'], through_edges=[(nn[0]['id'], True)]) and \
